@@ -34,6 +34,26 @@ def run(ctx):
         ctx.ob(R, o.key.split("::", 1)[1], ok, o.what, o.loc)
     ctx.require_min(R, 12)
 
+    from rules import _lints
+    RZ = "ZIP-ALIGN"
+    ctx.rule(RZ, "the parallel lists of a group (element types, member indices, reference columns) are iterated pairwise as returned by "
+                 "group_element_lists: none of them is filtered or re-bound on its own before zip(); set_value_to_group iterates "
+                 "zip(*group_element_lists(...)) or jointly unpacked, untouched lists")
+    _lints.zip_alignment(ctx, RZ, list(ctx.repo.module(G).functions.values()), minimum=1)
+    fsv = ctx.repo.func(f"{G}:set_value_to_group")
+    loops = [n for n in ast.walk(fsv.node) if isinstance(n, ast.For) and "zip(" in ast.unparse(n.iter)]
+    ctx.ob(RZ, f"{G}::set_value_to_group::loop", bool(loops), f"iterates {ast.unparse(loops[0].iter)[:70] if loops else '?'}", fsv.loc())
+    RU = "REF-UNIQUE"
+    ctx.rule(RU, "set_group_reference_column refuses a reference column that has duplicated or missing values anywhere in the element table "
+                 "(a non-member sharing a member's value would become a member): the test is evaluated on the whole column")
+    fr = ctx.repo.func(f"{G}:set_group_reference_column")
+    tests = [n for n in ast.walk(fr.node) if isinstance(n, ast.If) and ".duplicated()" in ast.unparse(n.test)]
+    if not tests:
+        ctx.fail("set_group_reference_column: duplicate test not found")
+    tt = ast.unparse(tests[0].test).replace(" ", "")
+    ok = "net[et][reference_column].duplicated()" in tt and "net[et][reference_column].isnull()" in tt
+    ctx.ob(RU, f"{G}::set_group_reference_column::whole-column", ok, f"`{tt[:100]}`" if ok else
+           f"`{tt[:100]}` does not test the whole column net[et][reference_column]", fr.loc(tests[0]))
     R2 = "REINDEX-GROUP"
     ctx.rule(R2, "re-indexing functions rewrite net.group element_index through the same lookup, restricted to "
                  "groups of the re-indexed element type with a null reference_column")
@@ -153,6 +173,8 @@ def variants(repo):
     gm = "pandapower/toolbox/grid_modification.py"
     V = Variant
     return [
+        V("type list filtered before zip", g, in_function("set_value_to_group", lambda s: s.replace("    for et, elm, rc in zip(*group_element_lists(net, index)):\n", "    ets, elms, rcs = group_element_lists(net, index)\n    if not append_column:\n        ets = [et for et in ets if column in net[et].columns]\n    for et, elm, rc in zip(ets, elms, rcs):\n", 1)), "ZIP-ALIGN"),
+        V("uniqueness checked for members only", g, in_function("set_group_reference_column", lambda s: s.replace("            if (net[et][reference_column].duplicated() | net[et][reference_column].isnull()).any():", "            ref_values = net[et].loc[group_element_index(net, index, et), reference_column]\n            if (ref_values.duplicated() | ref_values.isnull()).any():", 1)), "REF-UNIQUE"),
         V("member list extended in place", g, in_function("attach_to_group", lambda s: s.replace("            prev_elm = [prev_elm] if isinstance(prev_elm, str) or not hasattr(\n                prev_elm, \"__iter__\") else list(prev_elm)\n", "            if isinstance(prev_elm, str) or not hasattr(prev_elm, \"__iter__\"):\n                prev_elm = [prev_elm]\n            prev_elm += list(pd.Index(elm).difference(pd.Index(prev_elm)))\n", 1)), "GROUP-CELL-ALIAS"),
         V("index 0 treated as no index", g, replace_once("    if index is None:", "    if not index:"), "INDEX-NONE-CHECK"),
         V("empty group kept", g, in_function("detach_from_groups", replace_once("        if not len(net.group.element_index.iat[i]):\n            keep[i] = False\n", "        if len(net.group.element_index.iat[i]) > 1:\n            keep[i] = False\n")), "EMPTY-GROUP"),
